@@ -1018,7 +1018,7 @@ class StructuredTypeUnmarshaller(AbstractUnmarshaller[_ST]):
         - [`typelib.serdes.itervalues`][]
     """
 
-    __slots__ = ("fields_by_var",)
+    __slots__ = ("fields_by_var", "required")
 
     def __init__(self, t: type[_ST], context: ContextT, *, var: str | None = None):
         """Constructor.
@@ -1030,6 +1030,12 @@ class StructuredTypeUnmarshaller(AbstractUnmarshaller[_ST]):
         """
         super().__init__(t, context, var=var)
         self.fields_by_var = self._fields_by_var()
+        # A TypedDict "constructor" is just `dict()` - it enforces nothing.
+        self.required = (
+            frozenset(getattr(t, "__required_keys__", ()))
+            if inspection.istypeddict(t)
+            else None
+        )
 
     def _fields_by_var(self):
         fields_by_var = {}
@@ -1059,4 +1065,7 @@ class StructuredTypeUnmarshaller(AbstractUnmarshaller[_ST]):
         decoded = serdes.load(val)
         fields = self.fields_by_var
         kwargs = {f: fields[f](v) for f, v in serdes.iteritems(decoded) if f in fields}
+        if self.required and not self.required <= kwargs.keys():
+            missing = sorted(self.required - kwargs.keys())
+            raise TypeError(f"{self.t!r} is missing required keys: {missing}")
         return self.t(**kwargs)
